@@ -68,3 +68,43 @@ def plugin_chain_order(prog, run, rid):
         ok = nf is not None and not nf.calls()
         run.ob(rid, "NullTestPlugin::%s ends the chain" % meth, nf.site if nf else "src/CppUTest/TestPlugin.cpp:NullTestPlugin::" + meth, ok,
                what="" if ok else "the chain terminator does not override %s with an empty body" % meth)
+
+
+def char_classifiers(prog, run, rid, which=None):
+    """PARTITION: the character classifiers folded for every char value (-128..127) against their textbook tables."""
+    from cpv.ceval import Evaluator, Unknown
+    table = {
+        "isDigit": lambda c: 1 if 48 <= c <= 57 else 0,
+        "isSpace": lambda c: 1 if (c == 32 or 9 <= c <= 13) else 0,
+        "isUpper": lambda c: 1 if 65 <= c <= 90 else 0,
+        "ToLower": lambda c: c + 32 if 65 <= c <= 90 else c,
+        "isControlWithShortEscapeSequence": lambda c: 1 if 7 <= c <= 13 else 0,
+        "isControl": lambda c: 1 if (c < 32 or c == 127) else 0,
+    }
+    inline = {"SimpleString::" + k for k in table}
+    for name, oracle in table.items():
+        if which is not None and name not in which:
+            continue
+        f = prog.fn("SimpleString::" + name)
+        run.analysed(f)
+        bad = []
+        unknown = None
+        for c in range(-128, 128):
+            ev = Evaluator(prog, f, env={f.params[0]["name"]: c})
+            ev.inline = inline
+            try:
+                ev.run_blocks(f.entry, max_steps=300)
+                got = getattr(ev, "ret", None)
+                if isinstance(got, tuple):
+                    unknown = str(got)
+                    break
+            except Unknown as u:
+                unknown = str(u)
+                break
+            if got != oracle(c):
+                bad.append((c, got, oracle(c)))
+        if unknown is not None:
+            run.broke("SimpleString::%s cannot be folded per character (%s)" % (name, unknown))
+            continue
+        run.ob(rid, "SimpleString::%s agrees with its table for all 256 char values" % name, f.site, not bad, witness={"mismatches (char, folded, table)": bad[:6]} if bad else "256/256",
+               what="" if not bad else "e.g. %s(%d) = %s, expected %s" % (name, bad[0][0], bad[0][1], bad[0][2]))
